@@ -402,3 +402,43 @@ func VerifC07Contract() {
 	}
 	verifapi.Assert(storedCredit() == 0, "c01.contract.credit-moves-only-by-what-was-settled")
 }
+
+// VerifC07Cancel: the caller of a withdrawal goes away (its request context ends) at an arbitrary point while
+// the withdrawal runs - also while the settlement is in flight; the wallet then withdraws again. A withdrawal
+// that reports failure has paid nothing, and the two together never pay more than was owed.
+func VerifC07Cancel() {
+	w := verifNewPayWorld()
+	verifapi.SetNow(verifapi.Time("t0"))
+	wal := store.Account(verifapi.Wallet(0))
+	d := verifapi.BigInt("deposit")
+	c := verifapi.BigInt("credit")
+	verifapi.Assume(d.Sign() >= 0 && c.Sign() >= 0)
+	w.dep.Deposit[wal] = d
+	w.db.AddAccountBalance(wal, c)
+	owed := new(big.Int).Add(d, c)
+	ctx, cancel := context.WithCancel(context.Background())
+	nonce := pool.VerifFreshNonce()
+	sig := sigs.SignFor(string(wal), "pool_withdraw", nonce)
+	done := make(chan error, 1)
+	go func() { done <- w.pay.Withdraw(ctx, sig, string(wal), nonce) }()
+	go func() { cancel() }()
+	err1 := <-done
+	verifapi.Quiesce() // whatever the first request left running has finished
+	paid1 := new(big.Int)
+	if w.paid[wal] != nil {
+		paid1.Set(w.paid[wal])
+	}
+	verifapi.Reach("c07.cancel.first")
+	if err1 != nil {
+		verifapi.Assert(paid1.Sign() == 0, "c07.cancel.failed-withdrawal-paid-nothing")
+	}
+	err2 := w.withdraw(wal, true)
+	verifapi.Quiesce()
+	verifapi.Reach("c07.cancel")
+	paid := new(big.Int)
+	if w.paid[wal] != nil {
+		paid.Set(w.paid[wal])
+	}
+	verifapi.Assert(paid.Cmp(owed) <= 0, "c07.cancel.never-pays-more-than-owed")
+	_ = err2
+}
